@@ -947,7 +947,7 @@ def corpus_cases():
     return out
 
 
-def run(ctx):
+def _run_core(ctx):
     rng = ctx.rng
     ctx.rule = ("a case = (offset, weight matrix, lock vector); distinct by exactly that triple. In-family cases: "
                 "staircase `last` vector (Hall: sorted last[k] >= k+1) x assignment of rows to slots with W[s][s] > 0 "
@@ -1089,3 +1089,32 @@ def _replay_sub(c, code, kind, payload):
                 c.fail("C02:paths-disagree:quick-vs-permanent", "quick_prob and permanent_prob differ", rep)
     except Exception as e:  # noqa: BLE001
         c.fail("C02:sub-exception", f"{kind} raised {err_kind(e)}", rep)
+
+
+
+def _cache_coherence(ctx):
+    """`REPEX_state.prob` caches the matrix in `_last_prob`; it must be invalidated by every lock, unlock,
+    swap-affecting add: along real multi-worker histories the cached matrix must equal a fresh
+    `inf_retis(abs(state), locks)` after every operation (C02 anchors: `_last_prob`)."""
+    import random
+    import repex_tie as T
+    n_hist = 10 if ctx.quick else 80
+    for k in range(n_hist):
+        n_ens = 4 + k % 4
+        workers = 2 + k % max(1, n_ens - 2)
+        workers = min(workers, n_ens - 1)
+        label = f"cache n_ens={n_ens} workers={workers} k={k} ctxseed={ctx.seed}"
+        sim = T.run_history(ctx, n_ens, workers, 25, seed=k % 3, wf=bool(k % 2), rng=random.Random(label), rich_init=True)
+        for idx, (tag, d, held) in enumerate(sim.snaps):
+            ctx.count(1, branch="cache_coherence")
+            if d.get("_prob_stale") not in ("0", None):
+                ctx.fail("C02:cached-prob-stale",
+                         f"after {tag} (snapshot {idx}) the cached probability matrix differs from inf_retis on the current "
+                         f"state/locks ({d.get('_prob_stale')}): locks {d['locks']}",
+                         {"history": label, "snapshot": idx, "locks": d["locks"], "W": d["W"]})
+                break
+
+
+def run(ctx):
+    _run_core(ctx)
+    _cache_coherence(ctx)
